@@ -121,7 +121,7 @@ def main():
     rep = Report(PID, 'proof', 'CrossHair symbolic execution of the real grammar rules on token lists: one nesting step from an arbitrary context (z3 explores every context x construct x probe path)')
     quick = rep.tier == 'quick'
     from hv import chx
-    chx.run_into(rep, 'c06', per_condition_timeout=240 if quick else 900)
+    chx.run_into(rep, 'c06', per_condition_timeout=600 if quick else 900)
     n = 0
     acc = 0
     for r in pmap(compose_task, [dict(seed=rep.seed * 1000 + i, n=150 if quick else 1500) for i in range(16)], limit=600):
